@@ -906,18 +906,44 @@ def o_C19(sc):
             return 'C19 edges not preserved'
         if any(np.diff(b.spikes) < 0):
             return 'C19 loaded train is not sorted'
-    return None
+    # a scalar edge means [0, edge]: loading, constructing from a string, constructing directly
+    try:
+        spk.save_spike_trains_to_txt(L, path, separator=sep, precision=17)
+        R3 = spk.load_spike_trains_from_txt(path, float(sc['te']), separator=sep, ignore_empty_lines=False)
+    finally:
+        if os.path.exists(path):
+            os.remove(path)
+    if len(R3) != len(L):
+        return 'C19 scalar edge: saved %d trains, loaded %d' % (len(L), len(R3))
+    for a, b in zip(L, R3):
+        if b.t_start != 0.0 or b.t_end != float(sc['te']):
+            return 'C19 scalar edge %s gives interval [%r,%r] when loading' % (sc['te'], b.t_start, b.t_end)
+        if list(b.spikes) != sorted(a.spikes):
+            return 'C19 scalar edge: precision 17 load differs'
+    return o_C19b(sc)
 
 
 def o_C19b(sc):
-    """string / time-series / scalar edge"""
-    vals = sc['values'][0]
-    s = sc['sep'].join(repr(float(v)) for v in vals)
-    t = spk.spike_train_from_string(s, float(sc['te']), sep=sc['sep'])
-    if list(t.spikes) != sorted(float(v) for v in vals):
-        return 'C19 spike_train_from_string(%r) gives %s' % (s, list(t.spikes))
-    if t.t_start != 0.0 or t.t_end != float(sc['te']):
-        return 'C19 scalar edge %s gives interval [%r,%r]' % (sc['te'], t.t_start, t.t_end)
+    """string / scalar edge / direct construction"""
+    for vals in sc['values'][:2]:
+        if not vals:
+            continue
+        s = sc['sep'].join(repr(float(v)) for v in vals)
+        t = spk.spike_train_from_string(s, float(sc['te']), sep=sc['sep'])
+        if list(t.spikes) != sorted(float(v) for v in vals):
+            return 'C19 spike_train_from_string(%r) gives %s' % (s, list(t.spikes))
+        if t.t_start != 0.0 or t.t_end != float(sc['te']):
+            return 'C19 scalar edge %s gives interval [%r,%r]' % (sc['te'], t.t_start, t.t_end)
+        t2 = spk.spike_train_from_string(s, [float(sc['ts']), float(sc['te'])], sep=sc['sep'])
+        if list(t2.spikes) != list(t.spikes) or t2.t_start != float(sc['ts']) or t2.t_end != float(sc['te']):
+            return 'C19 spike_train_from_string with an edge pair differs from the scalar-edge form'
+        u = SpikeTrain([float(v) for v in vals], float(sc['te']), is_sorted=False)
+        if u.t_start != 0.0 or u.t_end != float(sc['te']) or list(u.spikes) != sorted(float(v) for v in vals):
+            return 'C19 SpikeTrain(times, scalar edge) = %s on [%r,%r]' % (list(u.spikes), u.t_start, u.t_end)
+        w = SpikeTrain([float(v) for v in vals], float(sc['te']), is_sorted=True)
+        w.sort()
+        if list(w.spikes) != sorted(float(v) for v in vals):
+            return 'C19 SpikeTrain.sort() gives %s' % list(w.spikes)
     return None
 
 
@@ -943,6 +969,24 @@ def o_C20(sc):
                 return 'C20 psth bin %d counts %r, %d spikes fall into it' % (k, h.y[k], c)
         if sum(h.y) != sum(1 for x in exp if float(ts) <= x <= float(te)):
             return 'C20 psth counts do not sum to the number of spikes'
+    # generated Poisson trains (real generator, seeded from the scenario): sorted, inside, edges carried;
+    # low expected counts make the top-up loop of the generator run
+    st = np.random.get_state()
+    try:
+        np.random.seed((len(exp) * 7919 + n * 104729 + int(T * 8)) % (2 ** 31))
+        for rate in (0.3 / T, 2.0 / T, 12.0 / T):
+            for iv, a, b in (([float(ts), float(te)], float(ts), float(te)), (T, 0.0, T)):
+                for _ in range(3):
+                    g = spk.generate_poisson_spikes(rate, iv)
+                    sp = np.asarray(g.spikes, dtype=float)
+                    if g.t_start != a or g.t_end != b:
+                        return 'C20 generate_poisson_spikes(%r, %r) carries edges [%r,%r]' % (rate, iv, g.t_start, g.t_end)
+                    if np.any(np.diff(sp) < 0):
+                        return 'C20 generate_poisson_spikes(%r, %r) is not sorted: %s' % (rate, iv, list(sp))
+                    if len(sp) and (sp[0] < a or sp[-1] > b or np.min(sp) < a or np.max(sp) > b):
+                        return 'C20 generate_poisson_spikes(%r, %r) has spikes outside the interval: %s' % (rate, iv, list(sp))
+    finally:
+        np.random.set_state(st)
     return None
 
 
@@ -1057,6 +1101,15 @@ def o_C09(sc):
             _, i, c = op
             quiet(objs[int(i)].mul_scalar, float(c))
             combo[int(i)] = {k: w * Fr(c) for k, w in combo[int(i)].items()}
+        elif op[0] == 'avg':
+            from pyspike.DiscreteFunc import average_profile
+            ids = [int(i) for i in op[1:]]
+            objs.append(quiet(average_profile, [objs[i] for i in ids]))
+            c = {}
+            for i in ids:
+                for k, w in combo[i].items():
+                    c[k] = c.get(k, Fr(0)) + w / len(ids)
+            combo.append(c)
         else:
             _, i = op
             objs.append(quiet(objs[int(i)].copy))
@@ -1181,7 +1234,21 @@ def o_C11(sc):
         av = quiet(acc.avrg, (float(a), float(b)))
         if not feq(av, (e_v / e_m) if e_m > 0 else 1):
             return 'C11 avrg over (%s,%s) = %r' % (a, b, av)
+        raw = quiet(acc.avrg, (float(a), float(b)), normalize=False)
+        if not feq(raw, e_v):
+            return 'C11 avrg(normalize=False) over (%s,%s) = %r, summed values %s' % (a, b, raw, e_v)
         tv += e_v; tm += e_m
+    # mul_scalar scales the values of a copy in place (multiplicities, times and the original stay)
+    snap = func_state(acc)
+    sc_ = quiet(acc.copy)
+    quiet(sc_.mul_scalar, 3.0)
+    if func_state(acc) != snap:
+        return 'C11 scaling a copy changed the original'
+    if list(sc_.x) != list(acc.x) or list(sc_.mp) != list(acc.mp) or not aeq(sc_.y, [3.0 * v for v in acc.y]):
+        return 'C11 mul_scalar(3) of a copy gives values %s from %s' % (list(sc_.y), list(acc.y))
+    v3, m3 = quiet(sc_.integral)
+    if not feq(v3, 3 * sum(e[0] for e in ev.values())) or not feq(m3, sum(e[1] for e in ev.values())):
+        return 'C11 integral of the scaled copy is not (3*values, multiplicity)'
     ivl = [(float(a), float(b)) for a, b in sc.get('intervals', [])]
     if len(ivl) >= 2:
         v, m = quiet(acc.integral, ivl)
